@@ -1457,7 +1457,16 @@ class Interp:
         return set_from_seq(self, lst.term, path)
 
     def e_Lambda(self, node, env, path):
-        raise Unsupported('lambda')
+        # a lambda is a nested function whose body is `return <expr>` (synthetic node, cached per lambda)
+        fd = getattr(node, '_pyvc_def', None)
+        if fd is None:
+            fd = pyast.FunctionDef(name='<lambda>', args=node.args, body=[pyast.Return(value=node.body)],
+                                   decorator_list=[], returns=None, type_comment=None)
+            pyast.copy_location(fd, node)
+            pyast.copy_location(fd.body[0], node)
+            node._pyvc_def = fd
+        closure = env if env.vars is not env.module.globals else None
+        return FuncV('<lambda>', fd, env.module, closure, None, 'function')
 
     def e_Call(self, node, env, path):
         if isinstance(node.func, pyast.Name) and node.func.id == 'super' and not node.args:
